@@ -238,7 +238,7 @@ pub fn gen_requests(rng: &mut Rng, n: u64, out: &mut Out) -> Vec<String> {
     while made < n {
         sid += 1;
         let shape = rng.below(20);
-        let variant = if (12..=14).contains(&shape) || rng.chance(1, 3) { "threads" } else { "plain" };
+        let variant = if (9..=11).contains(&shape) || rng.chance(1, 3) { "threads" } else { "plain" };
         let force = match rng.below(4) { 0 => "fwdlate", _ => "free" };
         req.push(format!("C12 new {sid} {variant} {force}"));
         out.count(&format!("session.{variant}.{force}"), 1);
@@ -246,7 +246,7 @@ pub fn gen_requests(rng: &mut Rng, n: u64, out: &mut Out) -> Vec<String> {
         macro_rules! push { ($c:expr, $m:expr, $p:expr) => { cmds.push(($c.to_string(), $m.to_string(), $p, false)) }; }
         macro_rules! piped { ($c:expr, $m:expr, $p:expr) => { cmds.push(($c.to_string(), $m.to_string(), $p, true)) }; }
         match shape {
-            0..=3 => { // (A)
+            0..=2 => { // (A)
                 out.count("shape.A-ordered-prefix", 1);
                 push!("initialize", "valid", 0);
                 if rng.chance(1, 4) { push!("launch", pick_mut(rng), 0); }
@@ -259,7 +259,7 @@ pub fn gen_requests(rng: &mut Rng, n: u64, out: &mut Out) -> Vec<String> {
                     push!(c, pick_mut(rng), pick_param(rng, c));
                 }
             }
-            4..=5 => { // (B)
+            3 => { // (B)
                 out.count("shape.B-out-of-order", 1);
                 if rng.chance(1, 2) { push!("initialize", "valid", 0); }
                 for _ in 0..rng.range(1, 6) { let c = *rng.pick(&tail_cmds); push!(c, pick_mut(rng), pick_param(rng, c)); }
@@ -270,11 +270,11 @@ pub fn gen_requests(rng: &mut Rng, n: u64, out: &mut Out) -> Vec<String> {
                     push!(c, pick_mut(rng), pick_param(rng, c));
                 }
             }
-            6 => { // (C)
+            4 => { // (C)
                 out.count("shape.C-random", 1);
                 for _ in 0..rng.range(3, 14) { let c = *rng.pick(&tail_cmds); push!(c, pick_mut(rng), pick_param(rng, c)); }
             }
-            7..=11 => { // (D) cancellation; the sequence numbers of the session are known in advance: `base + i`
+            5..=8 => { // (D) cancellation; the sequence numbers of the session are known in advance: `base + i`
                 out.count("shape.D-cancel", 1);
                 let stopped = rng.chance(3, 4);
                 push!("initialize", "valid", 0);
@@ -325,7 +325,7 @@ pub fn gen_requests(rng: &mut Rng, n: u64, out: &mut Out) -> Vec<String> {
                 if rng.chance(2, 3) { req.push(format!("C12 req {} disconnect valid 0", base + i)); made += 1; }
                 continue;
             }
-            12..=14 => { // (E) stop on the statement that spawns a thread, step over it, ask for the threads, run on
+            9..=11 => { // (E) stop on the statement that spawns a thread, step over it, ask for the threads, run on
                 out.count("shape.E-thread-steps", 1);
                 push!("initialize", "valid", 0);
                 push!("launch", "valid", 0);
@@ -473,6 +473,29 @@ fn thread_probe(ids: &[i64]) {
 
 struct Req { cseq: i64, cmd: String, mutn: String, param: u64, piped: bool }
 
+/// where every thread of this process and every child process is blocked (kept in the session log of a hang)
+fn hang_diag() -> Value {
+    let rd = |p: String| std::fs::read_to_string(p).unwrap_or_default().trim().to_string();
+    let me = std::process::id();
+    let mut tasks = vec![];
+    for e in std::fs::read_dir("/proc/self/task").into_iter().flatten().flatten() {
+        let t = e.file_name().to_string_lossy().to_string();
+        tasks.push(json!({"tid": t, "comm": rd(format!("/proc/self/task/{t}/comm")), "wchan": rd(format!("/proc/self/task/{t}/wchan")),
+            "syscall": rd(format!("/proc/self/task/{t}/syscall")), "stat": rd(format!("/proc/self/task/{t}/stat")).chars().take(80).collect::<String>()}));
+    }
+    let mut children = vec![];
+    for e in std::fs::read_dir("/proc").into_iter().flatten().flatten() {
+        let p = e.file_name().to_string_lossy().to_string();
+        if !p.chars().all(|c| c.is_ascii_digit()) { continue; }
+        let st = rd(format!("/proc/{p}/stat"));
+        let after = st.rsplit(')').next().unwrap_or("").split_whitespace().map(String::from).collect::<Vec<_>>();
+        if after.get(1).and_then(|x| x.parse::<u32>().ok()) == Some(me) {
+            children.push(json!({"pid": p, "stat": st.chars().take(80).collect::<String>(), "wchan": rd(format!("/proc/{p}/wchan")), "syscall": rd(format!("/proc/{p}/syscall"))}));
+        }
+    }
+    json!({"tasks": tasks, "children": children})
+}
+
 fn worker(variant: &str, force: &str, reqs: &[Req], log: &Path, expected_len: (u64, u64)) -> ! {
     let rec = Arc::new(Recorder { f: Mutex::new(std::fs::File::create(log).unwrap()) });
     *ALLOC_LOG.lock().unwrap() = Some(rec.clone());
@@ -495,7 +518,7 @@ fn worker(variant: &str, force: &str, reqs: &[Req], log: &Path, expected_len: (u
     let wait_reads = |k: u64, i: usize| {
         let t0 = Instant::now();
         while READS.load(Ordering::SeqCst) < k && !h.is_finished() {
-            if t0.elapsed() > Duration::from_secs(40) { rec.rec(json!({"t": "hang", "i": i})); unsafe { libc::_exit(3) } }
+            if t0.elapsed() > Duration::from_secs(40) { rec.rec(json!({"t": "hang", "i": i, "diag": hang_diag()})); unsafe { libc::_exit(3) } }
             std::thread::sleep(Duration::from_micros(300));
         }
     };
@@ -601,13 +624,29 @@ fn parse_sessions(lines: &[String]) -> Vec<Session> {
     out
 }
 
-fn run_workers(sessions: &[Session], dir: &Path, expected: &[(Vec<u8>, Vec<u8>); 2]) -> Vec<(PathBuf, String)> {
+/// A session whose worker stalled (40 s without an answer, or the 120 s watchdog) is run once more in a fresh
+/// worker: a stall of the machine (this check shares it with other builds) is not a verdict about the adapter; a
+/// hang of the adapter itself stalls again and is reported. The first log is kept as `s<i>.stalled.jsonl`.
+fn run_workers(sessions: &[Session], dir: &Path, expected: &[(Vec<u8>, Vec<u8>); 2], out: &mut Out) -> Vec<(PathBuf, String)> {
+    let mut results = run_workers_once(sessions, &(0..sessions.len()).collect::<Vec<_>>(), dir, expected);
+    let stalled: Vec<usize> = (0..sessions.len()).filter(|i| results[*i].1 == "exit3" || results[*i].1 == "watchdog").collect();
+    if !stalled.is_empty() {
+        out.count("session.stalled_and_rerun", stalled.len() as u64);
+        for i in &stalled { let _ = std::fs::rename(&results[*i].0, dir.join(format!("s{i}.stalled.jsonl"))); }
+        let again = run_workers_once(sessions, &stalled, dir, expected);
+        for i in stalled { results[i] = again[i].clone(); }
+    }
+    results
+}
+
+fn run_workers_once(sessions: &[Session], which: &[usize], dir: &Path, expected: &[(Vec<u8>, Vec<u8>); 2]) -> Vec<(PathBuf, String)> {
     let par = std::env::var("C12_PAR").ok().and_then(|s| s.parse().ok()).unwrap_or(4usize);
     let mut results: Vec<(PathBuf, String)> = (0..sessions.len()).map(|i| (dir.join(format!("s{i}.jsonl")), String::new())).collect();
     let mut running: Vec<(i32, usize, Instant)> = vec![];
-    let mut next = 0usize;
-    while next < sessions.len() || !running.is_empty() {
-        while next < sessions.len() && running.len() < par {
+    let mut nexti = 0usize;
+    while nexti < which.len() || !running.is_empty() {
+        while nexti < which.len() && running.len() < par {
+            let next = which[nexti];
             let s = &sessions[next];
             let reqs: Vec<Req> = s.reqs().iter().map(|r| Req { cseq: r.cseq, cmd: r.cmd.clone(), mutn: r.mutn.clone(), param: r.param, piped: r.piped }).collect();
             let pid = unsafe { libc::fork() };
@@ -617,7 +656,7 @@ fn run_workers(sessions: &[Session], dir: &Path, expected: &[(Vec<u8>, Vec<u8>);
             }
             assert!(pid > 0, "fork failed");
             running.push((pid, next, Instant::now()));
-            next += 1;
+            nexti += 1;
         }
         let mut i = 0;
         while i < running.len() {
@@ -942,6 +981,8 @@ fn oracle(s: &Session, log: &[Rec], status: &str, expected: &(Vec<u8>, Vec<u8>),
     let (mut n_exited, mut n_terminated) = (0, 0);
     let mut terminated_at: Option<usize> = None;
     let mut live_threads: BTreeSet<i64> = Default::default();   // announced `started`, not yet `exited`
+    let mut exited_once: BTreeMap<i64, usize> = Default::default(); // exit announced (and not started again since): in which lifecycle
+    let mut launches_seen = 0usize;
     let mut running = false; // between `continued` and the next `stopped`/`exited`
     let mut ever_exited = false;
     let mut reported: BTreeSet<String> = Default::default();
@@ -957,7 +998,8 @@ fn oracle(s: &Session, log: &[Rec], status: &str, expected: &(Vec<u8>, Vec<u8>),
                               live: &BTreeSet<i64>, silent: bool, ri: usize| {
         for (t, wher) in used.drain(..) {
             if !silent && !live.contains(&t) {
-                fail(out, format!("thread-unannounced:{wher}"), format!("thread {t} appears in a {wher} but no `thread started` event announced it by the end of that answer"), ri);
+                let sfx = reqs.get(ri).map(|q| format!("{}-{}", q.cmd, lv.get(ri).copied().unwrap_or_default().fail_state())).unwrap_or_default();
+                fail(out, format!("thread-unannounced:{wher}:{sfx}"), format!("thread {t} appears in a {wher} but no `thread started` event announced it by the end of that answer"), ri);
             }
         }
         if let Some((cmd, ph)) = owed.take() {
@@ -979,7 +1021,8 @@ fn oracle(s: &Session, log: &[Rec], status: &str, expected: &(Vec<u8>, Vec<u8>),
         if m["type"] == "response" {
             let cmd = m["command"].as_str().unwrap_or("");
             if m["success"] == true {
-                if cmd == "launch" || cmd == "attach" { live_threads.clear(); running = false; }
+                // (threads of a debuggee that is replaced while it is alive stay announced until their exit is)
+                if cmd == "launch" || cmd == "attach" { launches_seen += 1; running = false; }
                 if cmd == "threads" { for t in m["body"]["threads"].as_array().into_iter().flatten() { if let Some(id) = t["id"].as_i64() { used.push((id, "threads-response")); } } }
                 let rsp_count = answers.get(ri).map(|a| a.msgs.iter().filter(|x| x["type"] == "response").count()).unwrap_or(0);
                 // (once `terminated` was sent the debuggee is gone for the client: only a request that starts it again owes a stop)
@@ -1018,8 +1061,14 @@ fn oracle(s: &Session, log: &[Rec], status: &str, expected: &(Vec<u8>, Vec<u8>),
             "thread" => {
                 let id = m["body"]["threadId"].as_i64().unwrap_or(-1);
                 match m["body"]["reason"].as_str().unwrap_or("") {
-                    "started" => if !live_threads.insert(id) { fail(out, "thread-started-twice".into(), format!("thread {id} announced as started twice"), ri); },
-                    "exited" => if !live_threads.remove(&id) { fail(out, "thread-exit-announced-without-live-thread".into(), format!("thread {id} announced as exited but it is not a live announced thread"), ri); },
+                    "started" => if !live_threads.insert(id) { fail(out, "thread-started-twice".into(), format!("thread {id} announced as started twice"), ri); } else { exited_once.remove(&id); },
+                    "exited" => if live_threads.remove(&id) { exited_once.insert(id, launches_seen); } else {
+                        match exited_once.get(&id) {
+                            Some(l) if *l != launches_seen => fail(out, "thread-exited-twice:after-relaunch".into(), format!("the exit of thread {id} was announced before the debuggee was launched again, and is announced a second time afterwards"), ri),
+                            Some(_) => fail(out, "thread-exited-twice".into(), format!("thread {id} announced as exited twice"), ri),
+                            None => fail(out, "thread-exit-without-start".into(), format!("thread {id} announced as exited but its start was never announced"), ri),
+                        }
+                    },
                     _ => {}
                 }
             }
@@ -1080,7 +1129,7 @@ pub fn exec(req: &[String], out: &mut Out, dir: &Path) {
     let sessions = parse_sessions(req);
     let sdir = dir.join("sessions");
     std::fs::create_dir_all(&sdir).unwrap();
-    let results = run_workers(&sessions, &sdir, &expected);
+    let results = run_workers(&sessions, &sdir, &expected, out);
     // the coverage table always lists every command, also those this run never sent
     for c in COMMANDS { out.count(&format!("cmd.{c}"), 0); }
     for (s, (path, status)) in sessions.iter().zip(results.iter()) {
